@@ -541,6 +541,10 @@ impl WatchDispatcher {
                         Ok(event) => self.dispatch_event(event).await,
                         Err(broadcast::error::RecvError::Lagged(n)) => {
                             warn!("WatchDispatcher lagged {} events (slow watchers)", n);
+                            // Events were dropped before dispatch: no watcher can be told which
+                            // ones, so end every stream with CANCELED instead of leaving a
+                            // silent gap (clients re-register and resync).
+                            self.cancel_all_watchers();
                         }
                         Err(broadcast::error::RecvError::Closed) => {
                             debug!("Broadcast channel closed, WatchDispatcher stopping");
@@ -555,6 +559,28 @@ impl WatchDispatcher {
             }
         }
         debug!("WatchDispatcher stopped");
+    }
+
+    /// Send the CANCELED sentinel to every registered watcher and unregister it.
+    fn cancel_all_watchers(&self) {
+        for map in [&self.registry.exact, &self.registry.prefix] {
+            let keys: Vec<Bytes> = map.iter().map(|e| e.key().clone()).collect();
+            for key in keys {
+                let ids: Vec<u64> = match map.get(&key) {
+                    Some(ws) => ws
+                        .iter()
+                        .map(|w| {
+                            let _ = w.sender.try_send(crate::watch::make_cancel_event(key.clone()));
+                            w.id
+                        })
+                        .collect(),
+                    None => Vec::new(),
+                };
+                for id in ids {
+                    self.registry.unregister(id, &key);
+                }
+            }
+        }
     }
 
     /// Broadcast a synthetic Progress event to ALL active watchers regardless of key.
@@ -589,6 +615,8 @@ impl WatchDispatcher {
         &self,
         event: WatchResponse,
     ) {
+        // Progress events report the highest revision dispatched so far.
+        self.last_applied.fetch_max(event.revision, Ordering::Relaxed);
         // Step 1: exact match — O(1) DashMap lookup
         self.dispatch_to_map(&self.registry.exact, &event.key, &event).await;
 
